@@ -6,7 +6,7 @@ CONSTANTS
  Hh = 3
  Hon <- H0
  Budget = 3
- ASet <- AllR
+ ASet <- A2
  RSet <- R1
  Early = FALSE
  Gen = FALSE
